@@ -189,3 +189,36 @@ Theorem C11_id_stale_attribute_refuted : exists h o,
   IdFrag.resolves_back (IdFrag.run IdFrag.head (IdFrag.init 10) h) o = false.
 Proof. exact IdFragProofs.stale_idattr_refuted. Qed.
 Print Assumptions C11_id_stale_attribute_refuted.
+
+(* the same two theorems with an EXECUTABLE premise: head_okb b decides head_ok (op_ok + bound_edit at every
+   step, the quantifiers over all objects restricted to the objects below b, which is sound for histories that
+   only name objects below b: Proofs/IdFragPremisesProofs.v, supp / supp_step).  The harness evaluates it on
+   every compared history (run_idfrag_premises, b = 1 + the largest object number of the history). *)
+From PyecoreV Require Model.IdFragPremises Proofs.IdFragPremisesProofs.
+
+Theorem C11_id_decider_is_sound :
+  forall b h s, IdFragPremisesProofs.supp b s -> IdFragPremises.head_okb b s h = true -> IdFragProofs.head_ok s h.
+Proof. exact IdFragPremisesProofs.head_okb_sound. Qed.
+Print Assumptions C11_id_decider_is_sound.
+
+Theorem C11_id_in_every_history_passing_the_decider :
+  forall b n h o, IdFragPremises.head_okb b (IdFrag.init n) h = true ->
+    In o (IdFrag.members (IdFrag.run IdFrag.head (IdFrag.init n) h)) ->
+    IdFrag.resolve (IdFrag.run IdFrag.head (IdFrag.init n) h)
+                   (IdFrag.fragment_of (IdFrag.run IdFrag.head (IdFrag.init n) h) o) = Some o.
+Proof. exact IdFragPremisesProofs.head_okb_history_resolves. Qed.
+Print Assumptions C11_id_in_every_history_passing_the_decider.
+
+Theorem C11_id_distinct_in_every_history_passing_the_decider :
+  forall b n h o1 o2, IdFragPremises.head_okb b (IdFrag.init n) h = true ->
+    In o1 (IdFrag.members (IdFrag.run IdFrag.head (IdFrag.init n) h)) ->
+    In o2 (IdFrag.members (IdFrag.run IdFrag.head (IdFrag.init n) h)) ->
+    IdFrag.fragment_of (IdFrag.run IdFrag.head (IdFrag.init n) h) o1 =
+    IdFrag.fragment_of (IdFrag.run IdFrag.head (IdFrag.init n) h) o2 -> o1 = o2.
+Proof. exact IdFragPremisesProofs.head_okb_history_distinct. Qed.
+Print Assumptions C11_id_distinct_in_every_history_passing_the_decider.
+
+Example C11_id_decider_accepts_the_example :
+  IdFragPremises.head_okb (IdFragPremises.hist_bound IdFragProofs.h_ex) (IdFrag.init 100) IdFragProofs.h_ex = true.
+Proof. exact IdFragPremisesProofs.head_okb_ex. Qed.
+Print Assumptions C11_id_decider_accepts_the_example.
